@@ -2,6 +2,7 @@ package main
 
 import (
 	"bufio"
+	_ "embed"
 	"encoding/json"
 	"fmt"
 	"io"
@@ -9,13 +10,21 @@ import (
 	"os"
 	"os/exec"
 	"path/filepath"
+	"regexp"
 	"sort"
 	"strconv"
 	"strings"
 
+	"verif/harness/cmd/h-gerrclone/kinds"
 	"verif/harness/cmd/h-gerrclone/wire"
 	"verif/harness/internal/hx"
 )
+
+// the source of the kinds package's types, written (with the package clause rewritten) into every
+// scratch package, so that extension structs can have fields of these types
+//
+//go:embed kinds/types.go
+var kindsTypesSrc string
 
 // ---- extension struct definitions ----------------------------------------------------------
 
@@ -27,7 +36,46 @@ type fieldKind struct {
 	embed  string   // for kinds used as anonymous (embedded) fields: the field name Go derives from the type
 }
 
-const namedKinds = 9 // fieldKinds[:namedKinds] are used for named fields, the rest only embedded
+const plainKinds = 9 // fieldKinds[:plainKinds]: named fields of types without fmt methods
+
+// namedKindIdx: kinds usable for named fields; methodKindIdx: the ones among them whose type has its
+// own String / Error / Format / GoString method (package kinds); embedKindIdx: anonymous fields
+var namedKindIdx, methodKindIdx, embedKindIdx []int
+
+// The kinds of package kinds are appended here; how `%v` renders their values is asked of fmt
+// (kinds.Render), in this process, on values that never meet generated code.
+func init() {
+	for i := range fieldKinds {
+		if i < plainKinds {
+			namedKindIdx = append(namedKindIdx, i)
+		} else {
+			embedKindIdx = append(embedKindIdx, i)
+		}
+	}
+	for _, k := range kinds.Table {
+		fk := fieldKind{name: k.Name, goType: k.GoType, vals: k.Exprs, embed: k.Embed}
+		for _, v := range k.Vals {
+			fk.render = append(fk.render, kinds.Render(v))
+		}
+		fieldKinds = append(fieldKinds, fk)
+		switch {
+		case k.Embed != "":
+			embedKindIdx = append(embedKindIdx, len(fieldKinds)-1)
+		default:
+			namedKindIdx = append(namedKindIdx, len(fieldKinds)-1)
+			methodKindIdx = append(methodKindIdx, len(fieldKinds)-1)
+		}
+	}
+}
+
+func kindByName(name string) int {
+	for i, k := range fieldKinds {
+		if k.name == name {
+			return i
+		}
+	}
+	return -1
+}
 
 var fieldKinds = []fieldKind{
 	{"int", "int", []string{"0", "7", "-3"}, []string{"0", "7", "-3"}, ""},
@@ -156,20 +204,37 @@ func b01(b bool) string {
 var fieldNamePool = []string{"F0", "F1", "Zed", "Alpha", "Ab", "B", "Status_", "Mesg", "Über", "X9", "Aa", "Detail", "M", "Timeout", "Z"}
 var printNamePool = []string{"_", "_", "_", "renamed", "grpc-status", "customer msg", "k", "ünicode", "a.b"}
 
+// shadowNames: GError's exported fields.  An extension struct may declare its OWN field of such a
+// name (of any type); it shadows the promoted one, and the generated code has to keep reading the
+// embedded GError's.
+var shadowNames = []string{"Source", "Name", "Message"}
+
 func randDef(rng *rand.Rand, id int, skip bool) *extDef {
 	d := &extDef{ID: id, Skip: skip, Domain: true}
 	n := rng.Intn(7)
 	perm := rng.Perm(len(fieldNamePool))
 	for i := 0; i < n; i++ {
-		f := fieldDef{Name: fieldNamePool[perm[i]], Kind: rng.Intn(namedKinds), Tagged: rng.Intn(6) != 0, PrintAs: printNamePool[rng.Intn(len(printNamePool))],
+		kind := namedKindIdx[rng.Intn(plainKinds)]
+		if rng.Intn(3) == 0 {
+			kind = methodKindIdx[rng.Intn(len(methodKindIdx))]
+		}
+		f := fieldDef{Name: fieldNamePool[perm[i]], Kind: kind, Tagged: rng.Intn(6) != 0, PrintAs: printNamePool[rng.Intn(len(printNamePool))],
 			Print: rng.Intn(2) == 0, Clone: rng.Intn(2) == 0, Order: []string{"pc", "cp"}[rng.Intn(2)], Extra: rng.Intn(5) == 0}
 		d.Fields = append(d.Fields, f)
+	}
+	// own fields named like GError's exported fields
+	if n > 0 && rng.Intn(3) == 0 {
+		sp := rng.Perm(len(shadowNames))
+		fp := rng.Perm(n)
+		for k := 0; k < 1+rng.Intn(2) && k < n; k++ {
+			d.Fields[fp[k]].Name = shadowNames[sp[k]]
+		}
 	}
 	// anonymous (embedded) extra fields, tagged like any other: Go names them after their type
 	if rng.Intn(2) == 0 {
 		used := map[string]bool{}
 		for k := 1 + rng.Intn(2); k > 0; k-- {
-			kind := namedKinds + rng.Intn(len(fieldKinds)-namedKinds)
+			kind := embedKindIdx[rng.Intn(len(embedKindIdx))]
 			if used[fieldKinds[kind].embed] {
 				continue
 			}
@@ -184,6 +249,45 @@ func randDef(rng *rand.Rand, id int, skip bool) *extDef {
 		}
 	}
 	return d
+}
+
+// directedDefs: definitions that are part of EVERY run (ids 901…): print-tagged fields of every
+// kind whose type renders itself (String / Error / Format, value and pointer receivers, defined
+// string / int / bool / struct types and pointers to them), and own fields named like GError's
+// exported fields (string and non-string, every tag shape), also next to an embedded struct that
+// has fields of those names.
+func directedDefs() []*extDef {
+	fd := func(name, kind, tag string) fieldDef {
+		k := kindByName(kind)
+		f := fieldDef{Name: name, Kind: k, Order: "pc", PrintAs: "_"}
+		if fieldKinds[k].embed != "" && name == "" {
+			f.Embedded, f.Name = true, fieldKinds[k].embed
+		}
+		// tag: "" untagged | [<print name>=]<p|c|pc|cp|->
+		if tag != "" {
+			f.Tagged = true
+			if i := strings.IndexByte(tag, '='); i >= 0 {
+				f.PrintAs, tag = tag[:i], tag[i+1:]
+			}
+			f.Print, f.Clone = strings.Contains(tag, "p"), strings.Contains(tag, "c")
+			if strings.HasPrefix(tag, "c") {
+				f.Order = "cp"
+			}
+		}
+		return f
+	}
+	return []*extDef{
+		{ID: 901, Domain: true, Fields: []fieldDef{fd("Code", "kstr", "p"), fd("Why", "kstrerr", "pc"), fd("How", "kstrfmt", "realm=p"), fd("Raw", "kstrptr", "cp"), fd("Both", "kstrboth", "p"), fd("Go", "kstrgo", "pc")}},
+		{ID: 902, Skip: true, Domain: true, Fields: []fieldDef{fd("Errno", "kint", "p"), fd("Num", "kintfmt", "pc"), fd("Flag", "kbool", "p"), fd("Pair", "kpair", "pc"), fd("Box", "kbox", "p"), fd("PBox", "kpbox", "pc")}},
+		{ID: 903, Domain: true, Fields: []fieldDef{fd("PStr", "kpstr", "pc"), fd("PF", "kstrptrfmt", "p"), fd("Code", "kstr", "c"), fd("Why", "kstrerr", ""), fd("Plain", "string", "p"), fd("Lbl", "kstr", "grpc-status=pc")}},
+		{ID: 904, Domain: true, Fields: []fieldDef{fd("Source", "string", "pc"), fd("Name", "int", "p"), fd("Message", "kstr", "pc"), fd("F0", "int", "c")}},
+		{ID: 905, Skip: true, Domain: true, Fields: []fieldDef{fd("Source", "status", "origin=pc"), fd("Name", "string", "c"), fd("Message", "bool", "p")}},
+		{ID: 906, Domain: true, Fields: []fieldDef{fd("Source", "ptr", ""), fd("Name", "kstrerr", "p"), fd("Message", "string", "pc"), fd("", "kmeta", "pc")}},
+		{ID: 907, Domain: true, Fields: []fieldDef{fd("", "kmeta", "meta=p"), fd("Code", "kstr", "pc")}},
+		{ID: 908, Skip: true, Domain: true, Fields: []fieldDef{fd("Message", "int", "c"), fd("Source", "string", "-"), fd("Name", "strs", "pc")}},
+		{ID: 909, Domain: true, Fields: []fieldDef{fd("Source", "string", "pc"), fd("Name", "string", "shown=p"), fd("Message", "string", "c")}},
+		{ID: 910, Skip: true, Domain: true, Fields: []fieldDef{fd("Name", "string", "pc"), fd("Message", "string", "pc"), fd("Source", "string", "")}},
+	}
 }
 
 // ---- scratch packages, generator run, probe --------------------------------------------------
@@ -350,6 +454,19 @@ func exec(line string) string {
 			return "unknown-def"
 		}
 		defined[id] = true
+		return "ok"
+	case "build":
+		// the generated methods of this definition are compiled into this very program
+		if len(ws) != 3 {
+			return "bad-op"
+		}
+		id, err := strconv.Atoi(ws[2])
+		if err != nil {
+			return "bad-op"
+		}
+		if _, ok := registry[id]; !ok || !defined[id] {
+			return "bad-def"
+		}
 		return "ok"
 	case "new":
 		// gx new <reg> <id> <name> <msg> <src> V:<renderings> I:<value indices>
@@ -526,6 +643,7 @@ func setupC09(defs []*extDef) (*c09env, error) {
 	for k, pkg := range []string{"p0", "p1"} {
 		files["scratch/"+pkg+"/defs.go"] = defsFile(pkg, byPkg[k])
 		files["scratch/"+pkg+"/registry.go"] = registryFile(pkg, byPkg[k])
+		files["scratch/"+pkg+"/ktypes.go"] = strings.Replace(kindsTypesSrc, "package kinds", "package "+pkg, 1)
 	}
 	for name, body := range files {
 		p := filepath.Join(tmp, name)
@@ -563,6 +681,10 @@ func setupC09(defs []*extDef) (*c09env, error) {
 	}
 	probe := filepath.Join(tmp, "probe")
 	if err := run(filepath.Join(tmp, "scratch"), genv, "go", "build", "-o", probe, "./cmd/probe"); err != nil {
+		// which definitions' generated code does not compile?  (read before the scratch tree goes)
+		if bad := culprits(err.Error(), filepath.Join(tmp, "scratch")); len(bad) > 0 {
+			err = &buildFailure{msg: err.Error(), bad: bad}
+		}
 		return fail(err)
 	}
 	env.probe = exec.Command(probe)
@@ -575,6 +697,101 @@ func setupC09(defs []*extDef) (*c09env, error) {
 	}
 	env.frames = env.ask("gx frames")
 	return env, nil
+}
+
+// buildFailure: the scratch packages did not compile, and every compiler message points into the
+// generated methods of the listed definitions (id -> class of the first message).
+type buildFailure struct {
+	msg string
+	bad map[int]string
+}
+
+func (b *buildFailure) Error() string { return b.msg }
+
+var reGenErr = regexp.MustCompile(`(?m)^(?:\./)?(p[01])/defs\.gerror\.go:(\d+):\d+: (.*)$`)
+var reOtherErr = regexp.MustCompile(`(?m)^(?:\./)?[\w/.]+\.go:\d+:\d+: `)
+var reRecv = regexp.MustCompile(`^func \(e \*X(\d+)\) `)
+
+func classifyCompile(msg string) string {
+	switch {
+	case strings.Contains(msg, "ambiguous selector"):
+		return "ambiguous-selector"
+	case strings.Contains(msg, "mismatched types") || strings.Contains(msg, "cannot use") || strings.Contains(msg, "cannot convert") || strings.Contains(msg, "invalid argument"):
+		return "type-mismatch"
+	case strings.Contains(msg, "undefined"):
+		return "undefined"
+	case strings.Contains(msg, "declared and not used") || strings.Contains(msg, "imported and not used"):
+		return "unused"
+	}
+	return "other"
+}
+
+// culprits maps the compiler's messages to the definitions whose generated methods they are in.
+// It answers nothing unless EVERY message lies inside a generated method (a message elsewhere
+// means the batch as a whole is broken, which stays a setup failure).
+func culprits(out, scratch string) map[int]string {
+	bad := map[int]string{}
+	gen := reGenErr.FindAllStringSubmatch(out, -1)
+	if len(gen) == 0 || len(reOtherErr.FindAllString(out, -1)) != len(gen) {
+		return nil
+	}
+	src := map[string][]string{}
+	for _, m := range gen {
+		pkg := m[1]
+		if src[pkg] == nil {
+			b, err := os.ReadFile(filepath.Join(scratch, pkg, "defs.gerror.go"))
+			if err != nil {
+				return nil
+			}
+			src[pkg] = strings.Split(string(b), "\n")
+		}
+		ln, _ := strconv.Atoi(m[2])
+		id := -1
+		for i := ln - 1; i >= 0 && i < len(src[pkg]); i-- {
+			if r := reRecv.FindStringSubmatch(src[pkg][i]); r != nil {
+				id, _ = strconv.Atoi(r[1])
+				break
+			}
+		}
+		if id < 0 {
+			return nil
+		}
+		if _, ok := bad[id]; !ok {
+			bad[id] = classifyCompile(m[3])
+		}
+	}
+	return bad
+}
+
+// setupIsolating is setupC09, except that definitions whose generated code does not compile are set
+// aside (and reported one by one, each with its definition) instead of failing the whole batch.
+func setupIsolating(defs []*extDef) (*c09env, map[int]string, map[int]*extDef, error) {
+	failed := map[int]string{}
+	failedDefs := map[int]*extDef{}
+	for round := 0; ; round++ {
+		env, err := setupC09(defs)
+		if err == nil {
+			return env, failed, failedDefs, nil
+		}
+		bf, ok := err.(*buildFailure)
+		if !ok || round >= 3 {
+			return nil, failed, failedDefs, err
+		}
+		fmt.Fprintln(os.Stderr, "C09: generated code of some definitions does not compile:\n"+bf.msg)
+		var rest []*extDef
+		for _, d := range defs {
+			if cls, isBad := bf.bad[d.ID]; isBad {
+				failed[d.ID] = cls
+				failedDefs[d.ID] = d
+			} else {
+				rest = append(rest, d)
+			}
+		}
+		if len(rest) == len(defs) {
+			return nil, failed, failedDefs, err
+		}
+		defs = rest
+	}
 }
 
 func (e *c09env) ask(line string) string {
@@ -599,10 +816,31 @@ func (e *c09env) close() {
 }
 
 // gxImpl forwards every line to the probe.
-type gxImpl struct{ env *c09env }
+type gxImpl struct {
+	env     *c09env
+	failed  map[int]string // definitions whose generated code did not compile -> class
+	defined map[int]bool   // failed definitions this case has defined so far
+}
 
-func (g *gxImpl) Reset()                  {}
-func (g *gxImpl) Exec(line string) string { return g.env.ask(line) }
+func (g *gxImpl) Reset() { g.defined = map[int]bool{} }
+func (g *gxImpl) Exec(line string) string {
+	if ws := strings.Fields(line); len(ws) >= 3 && ws[0] == "gx" && (ws[1] == "def" || ws[1] == "build") {
+		if id, err := strconv.Atoi(ws[2]); err == nil {
+			if cls, bad := g.failed[id]; bad {
+				// not in the probe: the generator wrote code for it (exit 0) that does not compile
+				switch {
+				case ws[1] == "def":
+					g.defined[id] = true
+					return "ok"
+				case !g.defined[id]:
+					return "bad-def"
+				}
+				return "fail:" + cls
+			}
+		}
+	}
+	return g.env.ask(line)
+}
 
 // ---- cases ---------------------------------------------------------------------------------
 
@@ -735,7 +973,7 @@ func (g *c09gen) caseFor(d *extDef, preset int, tuples int) hx.Case {
 	if d.Skip {
 		header += " skip=" + strconv.Itoa(d.ID)
 	}
-	lines := []string{header, fmt.Sprintf("gx def %d %s", d.ID, d.spec())}
+	lines := []string{header, fmt.Sprintf("gx def %d %s", d.ID, d.spec()), fmt.Sprintf("gx build %d", d.ID)}
 	rend := make([]string, len(d.Fields))
 	idx := make([]string, len(d.Fields))
 	for i, f := range d.Fields {
@@ -778,12 +1016,7 @@ func (g *c09gen) caseFor(d *extDef, preset int, tuples int) hx.Case {
 	if d.Skip {
 		tags = append(tags, "skipConvertGen")
 	}
-	for _, f := range d.Fields {
-		if f.Embedded {
-			tags = append(tags, "embedded-field")
-			break
-		}
-	}
+	tags = append(tags, shapeTags(d)...)
 	for _, l := range lines {
 		if w := strings.Fields(l); len(w) == 10 && w[1] == "call" && len(w[9]) > 3 && strings.Contains(wire.WrapKinds, w[9][2:3]) && strings.HasPrefix(w[4], "Convert") {
 			tags = append(tags, "wrapped-gerror-input")
@@ -793,8 +1026,54 @@ func (g *c09gen) caseFor(d *extDef, preset int, tuples int) hx.Case {
 	return hx.Case{Domain: d.Domain, Nontrivial: true, Tags: tags, Lines: lines}
 }
 
+// shapeTags: which generator classes a definition belongs to (counted in the evidence)
+func shapeTags(d *extDef) []string {
+	seen := map[string]bool{}
+	var tags []string
+	add := func(t string) {
+		if !seen[t] {
+			seen[t] = true
+			tags = append(tags, t)
+		}
+	}
+	isMethodKind := map[int]bool{}
+	for _, k := range methodKindIdx {
+		isMethodKind[k] = true
+	}
+	for _, f := range d.Fields {
+		if f.Embedded {
+			add("embedded-field")
+			if fieldKinds[f.Kind].name == "kmeta" {
+				add("embedded-struct-with-fields-named-like-GError's")
+			}
+		}
+		if isMethodKind[f.Kind] {
+			add("field-type-with-fmt-method")
+			if f.Tagged && f.Print {
+				add("print-field-type-with-fmt-method")
+				if strings.HasPrefix(fieldKinds[f.Kind].name, "kstr") {
+					add("print-field-defined-string-with-fmt-method")
+				}
+			}
+		}
+		if !f.Embedded {
+			for _, n := range shadowNames {
+				if f.Name == n {
+					add("own-field-shadowing-GError." + n)
+					if fieldKinds[f.Kind].goType == "string" {
+						add("shadowing-field-of-type-string")
+					} else {
+						add("shadowing-field-of-another-type")
+					}
+				}
+			}
+		}
+	}
+	return tags
+}
+
 func runC09(f *hx.Flags) {
-	rule := "random extension structs (0-6 extra fields of 9 assorted types; untagged / print / clone / both in either order / renamed / extra tag keys), half of them generated with -skipConvertGen, all produced by the real gerror CLI into two scratch packages and compiled with a probe program; for each definition and each of the 4 presets (empty/preset Message x Source) all 19 (17 with -skipConvertGen) methods are called with random arguments on the extension factory and on a plain GError with the same base fields from the same function, some chains continued one step; observed: name, message, source, detail tag, stack length of both results, every extra field of the extension result, and Error() of both without the stack text. The expected answers are the specification's (plain-GError semantics, clone fields copied, others zero, print fields sorted under their print names). non-trivial: every case; distinct by request lines"
+	rule := "random extension structs (0-6 extra fields of 9 assorted types and of 15 defined string/int/bool/struct/pointer types that have their own String/Error/Format/GoString method on value or pointer receivers - how %v renders their values is asked of fmt by the harness, apart from any generated code; untagged / print / clone / both in either order / renamed / extra tag keys; own fields NAMED Source / Name / Message that shadow the embedded GError's, of string and other types; an embedded struct with fields of those names) plus 10 fixed definitions covering each of these classes, half of them generated with -skipConvertGen, all produced by the real gerror CLI into two scratch packages and compiled with a probe program; for each definition and each of the 4 presets (empty/preset Message x Source) all 19 (17 with -skipConvertGen) methods are called with random arguments on the extension factory and on a plain GError with the same base fields from the same function, some chains continued one step; observed: name, message, source, detail tag, stack length of both results, every extra field of the extension result, and Error() of both without the stack text. The expected answers are the specification's (plain-GError semantics, clone fields copied, others zero, print fields sorted under their print names). non-trivial: every case; distinct by request lines"
 	impl := &gxImpl{}
 	r := hx.NewRunner(f, "h-gerrclone", impl, rule)
 	r.KeyOf = func(d *hx.Disagreement) string {
@@ -802,6 +1081,8 @@ func runC09(f *hx.Flags) {
 		switch {
 		case len(ws) >= 5 && ws[1] == "call":
 			return "C09:call:" + ws[4]
+		case len(ws) >= 2 && ws[1] == "build":
+			return "C09:build:" + d.Impl
 		case len(ws) >= 2:
 			return "C09:" + ws[1]
 		}
@@ -833,6 +1114,9 @@ func runC09(f *hx.Flags) {
 		// out-of-domain: a print name holding a format verb (the template pastes it into a format string)
 		odd := &extDef{ID: 900, Domain: false, Fields: []fieldDef{{Name: "Pct", Kind: 0, Tagged: true, PrintAs: "100%", Print: true, Clone: true, Order: "pc"}}}
 		defs[odd.ID] = odd
+		for _, d := range directedDefs() {
+			defs[d.ID] = d
+		}
 	}
 	ids := []int{}
 	for id := range defs {
@@ -843,7 +1127,8 @@ func runC09(f *hx.Flags) {
 	for i, id := range ids {
 		list[i] = defs[id]
 	}
-	env, err := setupC09(list)
+	env, failed, failedDefs, err := setupIsolating(list)
+	impl.failed = failed
 	if err != nil {
 		// the generator or its output does not build for these definitions: that is a finding in itself
 		fmt.Fprintln(os.Stderr, "C09 setup failed:", err)
@@ -864,9 +1149,26 @@ func runC09(f *hx.Flags) {
 	r.Res.Extra["corpus_cases"] = len(stored)
 	r.Res.Extra["definitions"] = len(list)
 	g := &c09gen{rng: rng, frames: env.frames}
+	// the generator accepted these definitions and wrote methods that do not compile: one case each
+	// (definition + `gx build`), so that the replay names the definition
+	var failedIDs []int
+	for id := range failedDefs {
+		failedIDs = append(failedIDs, id)
+	}
+	sort.Ints(failedIDs)
+	for _, id := range failedIDs {
+		d := failedDefs[id]
+		header := "case gx"
+		if d.Skip {
+			header += " skip=" + strconv.Itoa(d.ID)
+		}
+		r.Add(hx.Case{Domain: d.Domain, Nontrivial: true, Tags: append([]string{"generated-code-does-not-compile"}, shapeTags(d)...),
+			Lines: []string{header, fmt.Sprintf("gx def %d %s", d.ID, d.spec()), fmt.Sprintf("gx build %d", d.ID)}})
+	}
+	r.Res.Extra["definitions_not_compiling"] = len(failedIDs)
 	for _, d := range list {
-		if d.ID < 900 {
-			continue // corpus-only definitions
+		if d.ID < 900 || failedDefs[d.ID] != nil {
+			continue // corpus-only definitions; definitions without a compiled type
 		}
 		for preset := 0; preset < 4; preset++ {
 			r.Add(g.caseFor(d, preset, tuples))
